@@ -145,6 +145,26 @@ NOTE_FIX = {
 }
 for pid, add in EXT.items():
     CHECKS[pid]["text"] += add
+# Extensions made in the fourth strengthening round (see DESIGN.md §6).
+EXT2 = {
+ "C01": " Also: a node listing itself among its peers.",
+ "C02": " Also: spans sliced while other requests (peer requests, empty-list keep-alives) fall between the slices.",
+ "C03": " Also: arrival sequences (connect / host / client in both orders) of one node id.",
+ "C06": " Also: on every endpoint, the honoured request replayed under up to 9 other spellings of its identity (case, 0x/0X prefix) is refused and changes nothing.",
+ "C07": " Also: a requester that hangs up at the moment settlement begins (paid <=> cleared, whatever is reported); the whole registered RPC surface - names read from the server's registry plus every exported method of the registered services under both prefixes - called with 650 unsigned argument tuples each: no settlement, no balance change.",
+ "C08": " Also: populations of 12-40 hosts; hosts of an unknown kind; an error although eligible hosts acknowledged.",
+ "C09": " Also: peer requests abandoned by the requester while hosts are being asked (registrations unchanged); hosts announcing themselves to the real binary in a one-shot HTTP POST (no connection remains registered).",
+ "C10": " Also: a connection closing while a request of the node registered on it is served (host re-registering on a new / the same connection, peer request, host keep-alive), with the pool's registries part of the compared state and lock-order deadlocks reported by the scheduler; concurrent callers over the socket transport.",
+ "C13": " Also: 63 histories in which time passes (peer sets ageing out to the empty set, late nonces) through the same crash-image machinery.",
+ "C14": " Also: calls of unregistered names among the other calls (answered with method-not-found, nothing else disturbed).",
+ "C15": " Also: schedule DFS of a connection closing under an in-flight request of its node (a deadlock is a wedge).",
+ "C16": " Also: the agent binary's reverse-callable set (the harness plays the pool end of its WebSocket and tries every exported method of the agent object x 4 prefixes x 4 spellings: only vipnode_whitelist may answer); receivers with interface-typed parameters.",
+ "C17": " Also: the gorilla and gobwas codecs talking to each other in both roles (text vs binary frames).",
+ "C18": " Also: ~1700 rounds through the real ethnode.RemoteNode geth and parity drivers (in-process go-ethereum RPC server speaking admin_* / parity_*, both shapes of Parity's peer name, on top of the recording node); nodes refusing every un-trust or every disconnect call (the other call is still made for every peer).",
+ "C19": " Also: overrides that are a node id alone (<id>, enode://<id>, with a port).",
+}
+for pid, add in EXT2.items():
+    CHECKS[pid]["text"] += add
 for pid, (old, new) in NOTE_FIX.items():
     CHECKS[pid]["note"] = CHECKS[pid]["note"].replace(old, new)
 
